@@ -295,3 +295,41 @@ func StoreLoad() {
 	vx.Assert("C01.unknown_key_is_an_error", err != nil && out == nil)
 	vx.Reach("C01.storeload_end")
 }
+
+// LargePayloads: payload sizes far above anything the symbolic programs use (size-dependent code paths: buffer reuse,
+// in-place operation above a threshold, chunking). The content is concrete - what is checked is the plumbing around
+// the cipher: the record decrypts repeatedly, in the same and in another process, nothing the caller owns is modified
+// and results handed out earlier do not change.
+func LargePayloads() {
+	e := env.New()
+	pol := env.Policies[0]
+	f := e.Factory(e.Policy(pol, env.CacheDefault))
+	sess, _ := f.GetSession("p0")
+	vx.Now()
+	vx.ClockFreeze(true)
+	n := []int{0, 4097, 32768, 65537}[vx.Choice("size", 4)]
+	payload := make([]byte, n)
+	for i := range payload {
+		payload[i] = byte(i*7 + 3)
+	}
+	keep := append([]byte(nil), payload...)
+	drr, err := sess.Encrypt(env.Ctx, payload)
+	vx.Assert("C01.large_encrypt_ok", err == nil)
+	if err != nil {
+		vx.Stop()
+	}
+	vx.Assert("C01.large_payload_unmodified", vx.BytesEq(payload, keep))
+	before := env.CloneDRR(drr)
+	out1, err := sess.Decrypt(env.Ctx, *drr)
+	vx.Assert("C01.large_decrypt_ok", vx.And(err == nil, vx.BytesEq(out1, keep)))
+	vx.Assert("C01.large_record_unmodified_by_decrypt", env.SameDRR(before, drr))
+	out2, err := sess.Decrypt(env.Ctx, *drr)
+	vx.Assert("C01.large_second_decrypt_ok", vx.And(err == nil, vx.BytesEq(out2, keep)))
+	vx.Assert("C01.large_first_result_unchanged", vx.BytesEq(out1, keep))
+	f2 := e.Factory(e.Policy(pol, env.CacheDefault))
+	s2, _ := f2.GetSession("p0")
+	out3, err := s2.Decrypt(env.Ctx, *drr)
+	vx.Assert("C01.large_other_process_decrypt_ok", vx.And(err == nil, vx.BytesEq(out3, keep)))
+	vx.Assert("C01.large_record_unmodified_at_end", env.SameDRR(before, drr))
+	vx.Reach("C01.large_end")
+}
